@@ -21,7 +21,12 @@ META = {
             "no genesis check and is reachable by negotiation (handshake_v031_no_genesis_refuted, F20; partial: chain id and peer "
             "id); a received block is filed under the sender-supplied Hash field, not under the digest of its header "
             "(stored_under_own_digest_refuted, forged_poisons_genuine_refuted, F8; partial: empty or consistent field). "
-            "Both findings are reproduced on the real code on every run and reported as KNOWN-FINDING.",
+            "Both findings are reproduced on the real code on every run and reported as KNOWN-FINDING. "
+            "Also proved and tied: the wire handshake header (readWireHSRequest on arbitrary bytes never panics, requests <= 68 bytes, count 0 or > 16 "
+            "refused; inbound answer = best common version or error magic; outbound side follows the listener's version: F20 outbound form, refuted), "
+            "totality of the four status checks on decoded statuses with nil / empty fields (check_total) and the 2.0.0 role/certificate rule "
+            "(agent_accepted_iff), the block receive path (BlocksChunkReceiver delivers exactly the requested identifiers in order; syncManager "
+            "duplicate suppression; F8 forms on both, refuted), and that a maximal legal block always fits in one frame.",
     "note": "Trusted: Coq kernel/vm_compute; the engines and this generator; Go runtime.MemStats for the allocation observation "
             "(compared tolerantly: model alloc <= measured heap delta <= model alloc*9/8 + 16 KiB). Modelled rather than verified: "
             "the stream is a finite byte list (EOF at its end; timeouts, partial writes and io errors other than EOF are outside), "
@@ -517,6 +522,237 @@ def coq_body(st):
                                      "true" if st["has_next"] else "false")
 
 
+def hs_hdr(magic, versions, cnt=None):
+    """Input builder: wire handshake request header bytes (big-endian words)."""
+    n = len(versions) if cnt is None else cnt
+    return (magic % 2 ** 32).to_bytes(4, "big") + (n % 2 ** 32).to_bytes(4, "big") + b"".join((v % 2 ** 32).to_bytes(4, "big") for v in versions)
+
+
+MAGIC = 0x47416841
+VERS = [0x20000, 0x303, 0x302, 0x301]
+
+
+def gen_wire(ctx):
+    rng = ctx.rng
+    quick = ctx.tier == "quick"
+    C = [{"op": "consts"}, {"op": "maxblock"}]
+    # marshal: every boundary count
+    for n in (0, 1, 2, 3, 4, 15, 16, 17, 40):
+        C.append({"op": "marshal", "magic": rng.choice([MAGIC, 0, 2 ** 32 - 1, rng.randrange(2 ** 32)]),
+                  "versions": [rng.choice(VERS + [0, 1, 2 ** 32 - 1, rng.randrange(2 ** 32)]) for _ in range(n)]})
+    C.append({"op": "marshal", "magic": MAGIC, "versions": VERS})
+    for m, c_ in ((MAGIC, 0x303), (0, 1), (0, 2), (2 ** 32 - 1, 2 ** 32 - 1), (0x01020304, 0x05060708)):
+        C.append({"op": "resp", "magic": m, "code": c_})
+        C.append({"op": "readresp", "stream": hx((m).to_bytes(4, "big") + (c_).to_bytes(4, "big") + rng.randbytes(rng.choice([0, 3])))})
+    for k in range(0, 8):
+        C.append({"op": "readresp", "stream": hx((MAGIC).to_bytes(4, "big") + (0x303).to_bytes(4, "big"))[:2 * k]})
+
+    def rd(stream, kind, chunk=0):
+        C.append({"op": "read", "stream": hx(stream), "chunk": chunk, "_kind": kind})
+
+    def wr(stream, kind, chunk=0):
+        C.append({"op": "wire", "stream": hx(stream), "chunk": chunk, "_kind": kind})
+    # well-formed headers of every legal count, with a continuation
+    for n in range(1, 17):
+        vs = [rng.choice(VERS + [rng.randrange(2 ** 32)]) for _ in range(n)]
+        rd(hs_hdr(MAGIC, vs) + rng.randbytes(rng.choice([0, 1, 4, 9])), "ok", chunk=rng.choice([0, 0, 1, 3]))
+    # counts at and beyond the limits, with plenty of bytes following
+    for cnt in (0, 16, 17, 18, 255, 256, 65536, 2 ** 24, 2 ** 31 - 1, 2 ** 31, 2 ** 32 - 1):
+        rd(hs_hdr(MAGIC, [0x303] * 20, cnt=cnt), "count")
+        wr(hs_hdr(MAGIC, [0x303] * 20, cnt=cnt), "count")
+    # every truncation of a 3-version and of a 16-version header
+    for vs in ([0x20000, 0x303, 0x301], [7] * 15 + [0x302]):
+        full = hs_hdr(MAGIC, vs)
+        for k in range(len(full)):
+            rd(full[:k], "trunc", chunk=rng.choice([0, 1]))
+            if k % (1 if not quick else 3) == 0:
+                wr(full[:k], "trunc")
+    # every single bit flip of a header
+    full = hs_hdr(MAGIC, [0x20000, 0x303, 0x301]) + b"\xaa\xbb"
+    for b in (range(160) if not quick else list(range(0, 64)) + rng.sample(range(64, 160), 24)):
+        m = bytearray(full)
+        m[b // 8] ^= 1 << (b % 8)
+        rd(bytes(m), "flip")
+        wr(bytes(m), "flip")
+    for _ in range(60 if quick else 2000):
+        rd(rng.randbytes(rng.choice([0, 1, 3, 4, 7, 8, 11, 12, rng.randrange(0, 80)])), "rnd", chunk=rng.choice([0, 0, 2]))
+    # negotiation through the real handler: every subset of the accepted versions, in random order, with unknown ones mixed in
+    for mask in range(16):
+        vs = [v for i, v in enumerate(VERS) if mask >> i & 1] + rng.sample([0x300, 0x304, 0, 5, 0x20001], rng.randrange(0, 3))
+        rng.shuffle(vs)
+        if vs:
+            wr(hs_hdr(MAGIC, vs) + rng.randbytes(rng.choice([0, 5, 48])), "negotiate")
+    for m in (0, MAGIC ^ 1, MAGIC + 1, 0x2e415429, 0x8fae0fd4, 0x41684147):   # test-net / raft-snap / byte-swapped magics
+        wr(hs_hdr(m, VERS) + b"zz", "magic")
+    # outbound side: the listener's response as an arbitrary byte stream
+    def wo(stream, kind):
+        C.append({"op": "wireout", "stream": hx(stream), "_kind": kind})
+    for code in VERS + [0, 1, 2, 0x300, 0x304, 2 ** 32 - 1]:
+        for m in (MAGIC, 0, MAGIC ^ 0x100, 0x41684147):
+            wo(m.to_bytes(4, "big") + code.to_bytes(4, "big") + rng.randbytes(rng.choice([0, 3, 48])), "resp")
+    full = MAGIC.to_bytes(4, "big") + (0x20000).to_bytes(4, "big")
+    for k in range(8):
+        wo(full[:k], "trunc")
+    for b in range(64):
+        m = bytearray(full + b"\x55")
+        m[b // 8] ^= 1 << (b % 8)
+        wo(bytes(m), "flip")
+    for _ in range(10 if quick else 300):
+        wo(rng.randbytes(rng.randrange(0, 14)), "rnd")
+    for _ in range(20 if quick else 600):
+        n = rng.randrange(1, 17)
+        wr(hs_hdr(rng.choice([MAGIC, MAGIC, MAGIC, rng.randrange(2 ** 32)]), [rng.choice(VERS + [0x300, 9]) for _ in range(n)]) + rng.randbytes(rng.randrange(0, 20)), "rnd")
+    return C
+
+
+# ---------------------------------------------------------------- protobuf input builder (Status payloads)
+def pb_varint(n, pad=0):
+    out = bytearray()
+    while True:
+        b = n & 0x7f
+        n >>= 7
+        if n or pad > len(out) + 1:
+            out.append(b | 0x80)
+        else:
+            out.append(b)
+            return bytes(out)
+
+
+def pb_bytes(num, data):
+    return pb_varint(num << 3 | 2) + pb_varint(len(data)) + data
+
+
+def pb_uint(num, v, pad=0):
+    return pb_varint(num << 3) + pb_varint(v, pad)
+
+
+def chain_id_wire(c, version=None):
+    v = c["v"] if version is None else version
+    return (v & 0xffffffff).to_bytes(4, "little") + bytes([1 if c["pub"] else 0, 1 if c["main"] else 0]) + (c["magic"] + "/" + c["cons"]).encode()
+
+
+def gen_status_raw(ctx):
+    """Status payloads written byte by byte (optional fields absent / empty / duplicated, odd varints, truncations, bit flips)
+    through the real frame + protobuf + receiveRemoteStatus + checkRemoteStatus path of the four handshakers."""
+    rng = ctx.rng
+    quick = ctx.tier == "quick"
+    chain = {"v": 3, "pub": True, "main": True, "magic": "aergo.io", "cons": "dpos"}
+    gen, peer = rng.randbytes(32), rng.randbytes(38)
+    local = {"chain": chain, "v0": 2, "v1": 3, "fork": 1000, "genesis": hx(gen), "peer": hx(peer)}
+    cid = chain_id_wire(chain)
+    best = rng.randbytes(32)
+
+    def sender(addr=b"192.168.1.10", pid=peer, role=1, addrs=(b"/ip4/192.168.1.10/tcp/7846",), port=7846, extra=b""):
+        m = b""
+        if addr is not None:
+            m += pb_bytes(1, addr)
+        if port is not None:
+            m += pb_uint(2, port)
+        if pid is not None:
+            m += pb_bytes(3, pid)
+        if role:
+            m += pb_uint(4, role)
+        for a in addrs:
+            m += pb_bytes(6, a)
+        return m + extra
+    F = {"sender": pb_bytes(1, sender()), "best": pb_bytes(2, best), "height": pb_uint(3, 5000), "chain": pb_bytes(4, cid),
+         "version": pb_bytes(6, b"v2.0.0"), "genesis": pb_bytes(7, gen)}
+    order = ["sender", "best", "height", "chain", "version", "genesis"]
+    base = b"".join(F[k] for k in order)
+    P = [("base", base), ("empty", b"")]
+    for k in order:
+        P.append(("omit-" + k, b"".join(F[x] for x in order if x != k)))
+        P.append(("empty-" + k, b"".join(F[x] if x != k else (pb_bytes({"sender": 1, "best": 2, "chain": 4, "version": 6, "genesis": 7}[k], b"") if k != "height" else pb_uint(3, 0)) for x in order)))
+    P.append(("reversed", b"".join(F[k] for k in reversed(order))))
+    other = dict(F)
+    for nm, snd in (("sender-empty-msg", b""), ("sender-no-peer", sender(pid=None)), ("sender-empty-peer", sender(pid=b"")),
+                    ("sender-no-address", sender(addr=None)), ("sender-empty-address", sender(addr=b"")), ("sender-bad-address", sender(addr=b"not a valid!!")),
+                    ("sender-no-addrs", sender(addrs=())), ("sender-no-addrs-bad-address", sender(addr=b"", addrs=())), ("sender-fqdn", sender(addr=b"dummy.aergo.io", addrs=())),
+                    ("sender-short-peer", sender(pid=peer[:-1])), ("sender-long-peer", sender(pid=peer + b"\0")), ("sender-role-agent", sender(role=3)),
+                    ("sender-role-77", sender(role=77)), ("sender-bad-multiaddr-entry", sender(addrs=(b"garbage",))), ("sender-port-0", sender(port=0, addrs=())),
+                    ("sender-port-huge", sender(port=2 ** 32 - 1, addrs=()))):
+        P.append((nm, pb_bytes(1, snd) + b"".join(F[k] for k in order[1:])))
+    for nm, b_ in (("best-31", best[:31]), ("best-33", best + b"\1"), ("best-0", b"")):
+        P.append((nm, F["sender"] + pb_bytes(2, b_) + b"".join(F[k] for k in order[2:])))
+    # duplicated fields: the last scalar wins, messages merge
+    P.append(("dup-chain-wrong-then-right", base.replace(F["chain"], pb_bytes(4, chain_id_wire(chain, 9)) + F["chain"])))
+    P.append(("dup-chain-right-then-wrong", base + pb_bytes(4, chain_id_wire(chain, 9))))
+    P.append(("dup-genesis-right-then-wrong", base + pb_bytes(7, rng.randbytes(32))))
+    P.append(("dup-genesis-wrong-then-right", pb_bytes(7, rng.randbytes(32)) + base))
+    P.append(("dup-sender-merge-peer", base + pb_bytes(1, pb_bytes(3, rng.randbytes(38)))))
+    P.append(("dup-sender-merge-same", base + pb_bytes(1, pb_bytes(3, peer))))
+    P.append(("dup-height-below-fork", base + pb_uint(3, 999)))
+    # odd varints / wire types / unknown fields
+    P.append(("height-overlong-varint", base.replace(F["height"], pb_uint(3, 5000, pad=10))))
+    P.append(("height-11-byte-varint", base.replace(F["height"], pb_varint(3 << 3) + b"\x80" * 10 + b"\x01")))
+    P.append(("height-max", base.replace(F["height"], pb_uint(3, 2 ** 64 - 1))))
+    P.append(("chain-as-varint", base.replace(F["chain"], pb_uint(4, 7))))
+    P.append(("sender-as-varint", pb_uint(1, 7) + base[len(F["sender"]):]))
+    P.append(("unknown-field-15", base + pb_bytes(15, b"xyz") + pb_uint(14, 3)))
+    P.append(("unknown-group-wiretype", base + bytes([15 << 3 | 3])))
+    P.append(("len-beyond-end", base + pb_varint(7 << 3 | 2) + pb_varint(200) + b"ab"))
+    P.append(("len-huge", base + pb_varint(7 << 3 | 2) + pb_varint(2 ** 40)))
+    P.append(("truncated-tag", base + b"\x80"))
+    P.append(("cert-garbage", base + pb_bytes(8, b"\x08\x01\x12\x03abc")))
+    P.append(("cert-empty-agent", F["sender"].replace(F["sender"], pb_bytes(1, sender(role=3, extra=pb_bytes(7, rng.randbytes(38))))) + b"".join(F[k] for k in order[1:]) + pb_bytes(8, b"")))
+    step = 9 if quick else 1
+    for k in list(range(1, len(base), step)) + [len(base) - 1]:
+        P.append(("trunc", base[:k]))
+    for b in rng.sample(range(len(base) * 8), 40 if quick else 600):
+        m = bytearray(base)
+        m[b // 8] ^= 1 << (b % 8)
+        P.append(("flip", bytes(m)))
+    for _ in range(10 if quick else 300):
+        P.append(("random", rng.randbytes(rng.randrange(0, 60))))
+    cases = []
+    for hs in (31, 32, 33, 200):
+        for nm, pl in P:
+            st = {"chain": dict(chain), "chain_raw": "", "best_hash": hx(best), "height": 5000, "addr": "192.168.1.10", "nil_sender": False, "peer": hx(peer),
+                  "genesis": hx(gen), "role": 1, "producers": [], "bad_cert": False}
+            cases.append({"hs": hs, "mode": "recv" if hs == 200 else "inbound", "local": local, "status": st, "payload_raw": hx(pl) if pl else "-",
+                          "_mut": "raw:" + nm, "_raw": True})
+    return cases
+
+
+def gen_agent(ctx):
+    """2.0.0 role / certificate rule with real keys and real certificates."""
+    chain = {"v": 3, "pub": True, "main": True, "magic": "aergo.io", "cons": "dpos"}
+    gen = hx(ctx.rng.randbytes(32))
+    local = {"chain": chain, "v0": 2, "v1": 3, "fork": 1000, "genesis": gen, "peer": "@agent"}
+    V = lambda bp, agent="@agent", **kw: dict({"bp": bp, "agent": agent, "tamper": False, "expired": False}, **kw)
+    variants = [
+        ("no-certs", 3, ["@bp0", "@bp1"], []), ("one-valid", 3, ["@bp0", "@bp1"], [V(0)]), ("two-valid", 3, ["@bp0", "@bp1"], [V(0), V(1)]),
+        ("same-twice", 3, ["@bp0"], [V(0), V(0)]), ("bp-not-listed", 3, ["@bp0", "@bp1"], [V(2)]), ("valid-then-not-listed", 3, ["@bp0", "@bp1"], [V(0), V(3)]),
+        ("other-agent", 3, ["@bp0", "@bp1"], [V(0, "@other")]), ("valid-then-other-agent", 3, ["@bp0"], [V(0), V(0, "@other")]),
+        ("tampered", 3, ["@bp0"], [V(0, tamper=True)]), ("valid-then-tampered", 3, ["@bp0", "@bp1"], [V(0), V(1, tamper=True)]),
+        ("expired", 3, ["@bp0"], [V(0, expired=True)]), ("no-producers", 3, [], []), ("no-producers-with-cert", 3, [], [V(0)]),
+        ("producer-role-bad-cert", 1, ["@bp0"], [V(0, tamper=True)]), ("watcher-role-bad-cert", 2, [], [V(0, "@other")]),
+        ("legacy-role-bad-cert", 0, [], [V(1, expired=True)]), ("unknown-role-bad-cert", 77, [], [V(1, tamper=True)]),
+        ("agent-is-producer-itself", 3, ["@agent"], []), ("many-producers", 3, ["@bp0", "@bp1", "@bp2", "@bp3"], [V(3), V(2), V(1), V(0)]),
+    ]
+    cases = []
+    for nm, role, prods, certs in variants:
+        for mode in ("check", "recv"):
+            st = {"chain": dict(chain), "chain_raw": "", "best_hash": "ab" * 32, "height": 5000, "addr": "192.168.1.10", "nil_sender": False, "peer": "@agent",
+                  "genesis": gen, "role": role, "producers": prods, "bad_cert": False, "certs": certs}
+            cases.append({"hs": 200, "mode": mode, "local": local, "status": st, "_mut": "agent:" + nm, "_agent": True})
+        # the same certificates presented by another peer id than the connection's
+    st = {"chain": dict(chain), "chain_raw": "", "best_hash": "ab" * 32, "height": 5000, "addr": "192.168.1.10", "nil_sender": False, "peer": "@other",
+          "genesis": gen, "role": 3, "producers": ["@bp0"], "bad_cert": False, "certs": [V(0, "@other")]}
+    cases.append({"hs": 200, "mode": "check", "local": local, "status": st, "_mut": "agent:other-peer-own-cert", "_agent": True})
+    return cases
+
+
+def coq_raw_status(chain_id, best_hash, height, nil_sender, addr, has_addrs, peer, role, producers, genesis, certs, port=7846):
+    b = lambda x: "true" if x else "false"
+    if nil_sender:
+        snd = "None"
+    else:
+        snd = "(Some (mk_sender %s %s %s %s %d [%s]))" % (b(ADDR_OK[addr]), b(has_addrs), b(ADDR_OK[addr] and port <= 65535), cb(peer), role, "; ".join(cb(p) for p in producers))
+    return "(mk_raw_status %s %s %d %s %s [%s])" % (cb(chain_id), cb(best_hash), height, snd, cb(genesis),
+                                                    "; ".join("(mk_cert %s %s %s)" % (b(v), cb(a), cb(p)) for v, a, p in certs))
+
+
 def coq_chain(c):
     v = c["v"] & (2 ** 32 - 1)
     b = lambda x: "true" if x else "false"
@@ -722,7 +958,7 @@ def run(ctx):
                 pred_fail.append(("C18:roundtrip", "large frame: payload/rest not returned intact", {"case": c, "obs": o}))
 
     # ================================================================= handshake
-    HS = gen_hs(ctx) + corpus.get("handshakes", []) + gen_inbound_frames(ctx, real_max)
+    HS = gen_hs(ctx) + corpus.get("handshakes", []) + gen_inbound_frames(ctx, real_max) + gen_status_raw(ctx) + gen_agent(ctx)
     hs030 = [c for c in HS if c["hs"] != 200]
     hs200 = [c for c in HS if c["hs"] == 200]
     rc, log, O030 = run_engine(ctx, b030, "TestVerifC18HS030Engine", hs030, "hs030")
@@ -733,9 +969,61 @@ def run(ctx):
         raise RuntimeError("v200 handshake engine failed rc=%s obs=%d/%d:\n%s" % (rc, len(O200), len(hs200), log[-3000:]))
     hitems, hcases = [], []
     fitems, fcases, mcases = [], [], []
+    ritems_raw, raw_src = [], []
     f20 = {}
     for c, o in list(zip(hs030, O030)) + list(zip(hs200, O200)):
         l, s = c["local"], c["status"]
+        if o.get("res_set") and o["accepted"] and not c.get("_frame"):
+            d_ = o.get("dec")
+            exp_no = d_["height"] if d_ else s["height"]
+            exp_hash = d_["best_hash"] if d_ else s["best_hash"]
+            exp_peer = d_["peer"] if d_ else o["peer_used"]
+            if len(exp_hash) != 64:
+                exp_hash = "00" * 32       # 0.3.x: ParseToBlockID error ignored, zero identifier
+            if not (o["res_no"] == exp_no and o["res_hash"] == exp_hash and o["res_peer"] == exp_peer):
+                pred_fail.append(("C18:handshake-result", "handshake %d reports a remote peer state (id / best hash / best height) that is not the one in the accepted status" % c["hs"], {"case": c, "obs": o}))
+        if c.get("_raw") or c.get("_agent"):
+            tag = c["_mut"].split(":")[0] + ":" + (c["_mut"].split(":")[1] if c.get("_agent") or c["_mut"].split(":")[1] in ("trunc", "flip", "random") else "crafted")
+            dist["hs%d:%s" % (c["hs"], tag)] = dist.get("hs%d:%s" % (c["hs"], tag), 0) + 1
+            hcases.append((c, o))
+            if o["panic"]:
+                pred_fail.append(("C18:handshake-panic", "handshaker %d panicked on a status message (%s)" % (c["hs"], c["_mut"]), {"case": c, "obs": o}))
+                continue
+            ver = {31: 769, 32: 770, 33: 771, 200: 131072}[c["hs"]]
+            loc = "(mk_local %s (forked_chain_id %s %d %d %d) %s %s)" % (
+                coq_chain(l["chain"]), coq_chain(l["chain"]), l["v0"], l["v1"], l["fork"], cb(bytes.fromhex(l["genesis"])), cb(bytes.fromhex(o["local_peer_used"])))
+            if c.get("_agent"):
+                certs = [(x["valid"], bytes.fromhex(x["agent"]), bytes.fromhex(x["bp"])) for x in (o["certs_used"] or [])]
+                rs = coq_raw_status(bytes.fromhex(o["chain_id"]), bytes.fromhex(s["best_hash"]), s["height"], False, s["addr"], True, bytes.fromhex(o["peer_used"]),
+                                    s["role"], [bytes.fromhex(x) for x in (o["producers_used"] or [])], bytes.fromhex(s["genesis"]), certs)
+                ritems_raw.append("(%d, %s, (Some %s), false, %d)" % (ver, loc, rs, o["cls"]))
+                raw_src.append(dict(case=c, obs=o))
+                # direct predicate: the rule itself, from the case as built
+                agent = s["role"] == 3
+                ok_rule = (not agent) or (len(s["producers"]) > 0 and all((not x["tamper"]) and (not x["expired"]) and x["agent"] == s["peer"] and ("@bp%d" % x["bp"]) in s["producers"] for x in s["certs"]))
+                should = ok_rule and s["peer"] == l["peer"]
+                if o["accepted"] != should:
+                    pred_fail.append(("C18:handshake-agent-rule", "2.0.0 agent/certificate rule: accepted=%s expected=%s (%s)" % (o["accepted"], should, c["_mut"]), {"case": c, "obs": o}))
+                continue
+            d = o.get("dec")
+            if o["accepted"]:
+                if not (d and d["ok"]) or d["nil_sender"] or d["peer"] != l["peer"] or not chain_raw_equiv(d["chain_id"], l["chain"], l["v0"] if (c["hs"] in (33, 200) and d["height"] < l["fork"]) else l["v1"]):
+                    pred_fail.append(("C18:handshake-raw-accepted", "handshake %d accepted a status payload that does not decode to the local chain id / the connection's peer id (%s)" % (c["hs"], c["_mut"]), {"case": c, "obs": o}))
+                elif c["hs"] != 31 and d["genesis"] != l["genesis"]:
+                    pred_fail.append(("C18:handshake-genesis-v%03d" % c["hs"], "handshake %d accepted a status payload with a different genesis hash" % c["hs"], {"case": c, "obs": o}))
+                elif c["hs"] == 200 and len(d["best_hash"]) != 64:
+                    pred_fail.append(("C18:handshake-best-hash", "2.0.0 handshake accepted a best block hash that is not 32 bytes", {"case": c, "obs": o}))
+            if d is None:
+                continue
+            if not d["ok"]:
+                ritems_raw.append("(%d, %s, None, %s, %d)" % (ver, loc, "true" if c["hs"] != 200 else "false", o["cls"]))
+                raw_src.append(dict(case=c, obs=o))
+            elif (d["nil_sender"] or d["addr"] in ADDR_OK) and not (d["ncerts"] > 0 and d["role"] == 3):
+                rs = coq_raw_status(bytes.fromhex(d["chain_id"]), bytes.fromhex(d["best_hash"]), d["height"], d["nil_sender"], d["addr"], d["naddrs"] > 0,
+                                    bytes.fromhex(d["peer"]), d["role"] if d["role"] >= 0 else d["role"] + 2 ** 32, [bytes.fromhex(x) for x in (d["producers"] or [])], bytes.fromhex(d["genesis"]), [], port=d["port"])
+                ritems_raw.append("(%d, %s, (Some %s), %s, %d)" % (ver, loc, rs, "true" if c["hs"] != 200 else "false", o["cls"]))
+                raw_src.append(dict(case=c, obs=o))
+            continue
         ver, loc, st = coq_hs_case(c, o)
         cls = o["cls"]
         if c.get("_frame"):
@@ -826,7 +1114,9 @@ def run(ctx):
     lap("engines")
     # ================================================================= thorough: chain-level F8, real FindBestP2PVersion
     chain_obs, neg_cases, neg_obs = [], [], []
-    deep = (not quick) or os.environ.get("VERIF_C18_DEEP") == "1"
+    # chain-service level F8 and the real FindBestP2PVersion need the overlay builds of packages chain and p2p; cached they cost
+    # 1-8 s + 0.2 s (measured), so they run in every tier; VERIF_C18_NODEEP=1 skips them in the quick tier (cold build ~30 s each)
+    deep = (not quick) or os.environ.get("VERIF_C18_NODEEP") != "1"
     if deep:
         rc, log, bchain = ctx.go_test_binary("chain", [os.path.join(E, "zz_verif_c18_chainf8_engine_test.go")], "chain.test", use_overlay=True)
         if rc != 0:
@@ -845,7 +1135,8 @@ def run(ctx):
             if o["scenario"] == "control" and not (o["add_err"] == "" and o["stored_under_digest"]):
                 pred_fail.append(("C18:chain-control", "a genuine block with an empty Hash field was not stored under the digest of its header", {"obs": o}))
         rc, log, bp2p = ctx.go_test_binary("p2p", [os.path.join(E, "zz_verif_c18_negotiate_engine_test.go"),
-                                                   os.path.join(E, "zz_verif_c18_blkrecv_engine_test.go")], "p2p.test", use_overlay=True)
+                                                   os.path.join(E, "zz_verif_c18_blkrecv_engine_test.go"),
+                                                   os.path.join(E, "zz_verif_c18_wirehs_engine_test.go")], "p2p.test", use_overlay=True)
         if rc != 0:
             raise RuntimeError("negotiate engine build failed:\n" + log[-3000:])
         rundir = os.path.join(ctx.workdir, "p2prun")      # the package's own test init() loads ./test/sample/sample.key
@@ -880,10 +1171,13 @@ def run(ctx):
     # Runs in every tier: the overlay build of package p2p is cached (measured 1-9 s when cached, ~30 s cold); set
     # VERIF_C18_NORECV=1 to skip it in the quick tier.
     recv_items, sm_items, recv_src, sm_src = [], [], [], []
+    wire_marshal, wire_resp, wire_rresp, wire_read, wire_wire, wire_src, wire_wsrc, wire_consts, wire_sizes = [], [], [], [], [], [], [], None, None
+    wire_out, wire_osrc = [], []
     if deep or os.environ.get("VERIF_C18_NORECV") != "1":
         t_b = time.time()
         rc, log, bp2p = ctx.go_test_binary("p2p", [os.path.join(E, "zz_verif_c18_negotiate_engine_test.go"),
-                                                   os.path.join(E, "zz_verif_c18_blkrecv_engine_test.go")], "p2p.test", use_overlay=True)
+                                                   os.path.join(E, "zz_verif_c18_blkrecv_engine_test.go"),
+                                                   os.path.join(E, "zz_verif_c18_wirehs_engine_test.go")], "p2p.test", use_overlay=True)
         if rc != 0:
             raise RuntimeError("p2p (negotiate + blkrecv) engine build failed:\n" + log[-3000:])
         tm["p2p overlay build"] = round(time.time() - t_b, 1)
@@ -972,6 +1266,95 @@ def run(ctx):
             sm_items.append("(%d, [%s], [%s])" % (cache_cap, "; ".join(ops_t), "; ".join(obs_t)))
             sm_src.append(dict(case=c, obs=o))
             dist["sm:" + c.get("_tag", "corpus")] = dist.get("sm:" + c.get("_tag", "corpus"), 0) + 1
+        # ---------------- wire handshake header (handshakev2.go) on the same binary
+        wcases = gen_wire(ctx) + corpus.get("wire", [])
+        fin, fout = os.path.join(ctx.workdir, "wire.in"), os.path.join(ctx.workdir, "wire.out")
+        with open(fin, "w") as f:
+            for c in wcases:
+                f.write(json.dumps(c) + "\n")
+        if os.path.exists(fout):
+            os.remove(fout)
+        env = ctx.goenv()
+        env.update({"VERIF_IN": fin, "VERIF_OUT": fout})
+        rc, log = vf.sh([bp2p, "-test.run", "TestVerifC18WireHSEngine"], cwd=rundir, env=env, timeout=900)
+        wobs = [json.loads(l) for l in open(fout)] if os.path.exists(fout) else []
+        if rc != 0 or len(wobs) != len(wcases):
+            bad = wcases[len(wobs)] if len(wobs) < len(wcases) else None
+            pred_fail.append(("C18:wire-crash", "the wire handshake engine died (rc=%s)" % rc, {"case": bad, "log": log[-1500:]}))
+            wcases = wcases[:len(wobs)]
+        NL = lambda l: "[" + ";".join(str(x) for x in (l or [])) + "]"
+        for c, o in zip(wcases, wobs):
+            k = c["op"] + ":" + c.get("_kind", "")
+            dist["wire:" + k] = dist.get("wire:" + k, 0) + 1
+            if o["cls"] == 4:
+                pred_fail.append(("C18:wire-panic", "wire handshake code panicked on a byte stream", {"case": c, "obs": o}))
+                continue
+            if c["op"] == "consts":
+                wire_consts = o["consts"]
+            elif c["op"] == "maxblock":
+                sz = o["sizes"]
+                wire_sizes = sz
+                if not (o["accepted"] and max(sz[3], sz[4]) <= sz[5] and sz[1] == sz[0]):
+                    pred_fail.append(("C18:max-block-not-framable", "a block of the maximal legal size does not fit in / survive one frame", {"obs": o}))
+            elif c["op"] == "marshal":
+                wire_marshal.append("(%d, %s, %s)" % (c["magic"], NL(c["versions"]), cb(bytes.fromhex(o["bytes"]))))
+            elif c["op"] == "resp":
+                wire_resp.append("((%d, %d), %s)" % (c["magic"], c["code"], cb(bytes.fromhex(o["bytes"]))))
+            elif c["op"] == "readresp":
+                st = bytes.fromhex(c["stream"])
+                wire_rresp.append("(%s, %s)" % (cb(st), "None" if o["cls"] != 0 else "(Some ((%d, %d), %s))" % (o["magic"], o["code"], cb(bytes.fromhex(o["rest"])))))
+                if (len(st) < 8) != (o["cls"] != 0):
+                    pred_fail.append(("C18:wire-resp", "readWireHSResp: error iff fewer than 8 bytes violated", {"case": c, "obs": o}))
+            elif c["op"] == "read":
+                st = bytes.fromhex(c["stream"])
+                wire_read.append("(%s, %d, %d, %s, %s)" % (cb(st), o["cls"], o["magic"], NL(o["versions"]), cb(bytes.fromhex(o["rest"]))))
+                wire_src.append(dict(case=c, obs=o))
+                if o["alloc"] > 4096:
+                    pred_fail.append(("C18:wire-alloc", "readWireHSRequest allocated %d bytes" % o["alloc"], {"case": c, "obs": o}))
+                if c.get("_kind") == "trunc" and o["cls"] == 0:
+                    pred_fail.append(("C18:wire-truncated", "a truncated handshake header was accepted", {"case": c, "obs": o}))
+                if c.get("_kind") == "count" and len(st) >= 8 and int.from_bytes(st[4:8], "big") not in range(1, 17) and o["cls"] != 2:
+                    pred_fail.append(("C18:wire-count", "a version count outside 1..16 was not refused as such", {"case": c, "obs": o}))
+                if o["cls"] == 0 and not (1 <= len(o["versions"] or []) <= 16):
+                    pred_fail.append(("C18:wire-count", "a header with %d versions was accepted" % len(o["versions"] or []), {"case": c, "obs": o}))
+                if c.get("_kind") == "ok":
+                    n = int.from_bytes(st[4:8], "big")
+                    exp = [int.from_bytes(st[8 + 4 * i:12 + 4 * i], "big") for i in range(n)]
+                    if not (o["cls"] == 0 and o["magic"] == MAGIC and o["versions"] == exp and o["rest"] == hx(st[8 + 4 * n:])):
+                        pred_fail.append(("C18:wire-roundtrip", "a well-formed handshake header was not read back", {"case": c, "obs": o}))
+            elif c["op"] == "wireout":
+                st = bytes.fromhex(c["stream"])
+                wire_out.append("(%s, %s, %d, %s)" % (cb(st), cb(bytes.fromhex(o["resp"])), o["chosen"], cb(bytes.fromhex(o["rest"]))))
+                wire_osrc.append(dict(case=c, obs=o))
+                if o["resp"] != hx(hs_hdr(MAGIC, o["versions"] or [])):
+                    pred_fail.append(("C18:wire-outbound-request", "the outbound node did not start with the main-net magic and its attempted versions", {"case": c, "obs": o}))
+                should = len(st) >= 8 and int.from_bytes(st[:4], "big") == MAGIC
+                if o["accepted"] != should or (should and (o["chosen"] != int.from_bytes(st[4:8], "big") or o["rest"] != hx(st[8:]))):
+                    pred_fail.append(("C18:wire-outbound", "outbound wire handshake: a response %s was %s" % ("with the main-net magic" if should else "without the main-net magic / incomplete",
+                                      "followed" if o["accepted"] else "refused"), {"case": c, "obs": o}))
+                if o["accepted"] and o["chosen"] == 0x301 and 0x20000 in (o["versions"] or []):
+                    f20["outbound_downgrade"] = (c, o)
+            elif c["op"] == "wire":
+                st = bytes.fromhex(c["stream"])
+                wire_wire.append("(%s, %s, %d, %s)" % (cb(st), cb(bytes.fromhex(o["resp"])), o["chosen"], cb(bytes.fromhex(o["rest"]))))
+                wire_wsrc.append(dict(case=c, obs=o))
+                # direct predicates from the header as sent
+                wellformed = len(st) >= 8 and 1 <= int.from_bytes(st[4:8], "big") <= 16 and len(st) >= 8 + 4 * int.from_bytes(st[4:8], "big")
+                req = [int.from_bytes(st[8 + 4 * i:12 + 4 * i], "big") for i in range(int.from_bytes(st[4:8], "big"))] if wellformed else []
+                best = next((a for a in vers["vers"] if a in req), 0)
+                should = wellformed and int.from_bytes(st[:4], "big") == MAGIC and best != 0
+                if o["accepted"] != should or (should and o["chosen"] != best):
+                    pred_fail.append(("C18:wire-negotiation", "inbound wire handshake: accepted=%s chosen=%#x, expected accepted=%s best=%#x" % (o["accepted"], o["chosen"], should, best), {"case": c, "obs": o}))
+                if should and o["resp"] != hx((MAGIC).to_bytes(4, "big") + best.to_bytes(4, "big")):
+                    pred_fail.append(("C18:wire-response", "the wire handshake response does not carry the magic and the chosen version", {"case": c, "obs": o}))
+                if not should and o["resp"][:8] != "00000000":
+                    pred_fail.append(("C18:wire-response", "a refused wire handshake was not answered with the error magic", {"case": c, "obs": o}))
+                if should and o["rest"] != hx(st[8 + 4 * len(req):]):
+                    pred_fail.append(("C18:wire-rest", "bytes after the handshake header did not reach the versioned handshaker intact", {"case": c, "obs": o}))
+    if "outbound_downgrade" in f20:
+        c_, o_ = f20["outbound_downgrade"]
+        pred_fail.append(("C18:F20-outbound-listener-picks-version",
+                          "an outbound node that offered 2.0.0 follows a listener answering 0.3.1 (whose handshaker has no genesis check)", {"case": c_, "obs": o_}))
     lap("block receive engine")
     # ================================================================= model evaluation
     head = ["From Coq Require Import NArith List Bool Strings.Byte.", "From Verif Require Import Common.Bytes Codec.ChainId P2P.Frame P2P.Handshake P2P.BlockId.",
@@ -1055,6 +1438,42 @@ def run(ctx):
             "Definition MC := Eval vm_compute in mismatches_from chain_ok ccases 0.", "Print MC.",
             "Definition ncases : list (list N * N) := [%s]." % ";\n".join(nitems),
             "Definition MN := Eval vm_compute in mismatches_from negotiate_case_ok ncases 0.", "Print MN."]))
+    RSH = 500
+    for k in range(0, len(ritems_raw), RSH):
+        shards.append(("raw%d" % (k // RSH), "raw", k, head + [
+            "From Verif Require Import P2P.StatusRaw.",
+            "(* (version, local, decoded status or None, through the 0.3.x receive fix-up, observed class) *)",
+            "Definition rawf_ok (c : N * local * option raw_status * bool * N) : bool :=",
+            "  let '(v, l, ors, via030, cls) := c in",
+            "  match ors with",
+            "  | None => cls =? 23",
+            "  | Some rs => if via030 && negb (v030_receive_ok rs) then cls =? 23 else raw_case_ok (v, l, rs, cls)",
+            "  end.",
+            "Definition rwcases : list (N * local * option raw_status * bool * N) := [%s]." % ";\n".join(ritems_raw[k:k + RSH]),
+            "Definition MRW := Eval vm_compute in mismatches_from rawf_ok rwcases 0.", "Print MRW."]))
+    if wire_read or wire_wire:
+        wc = wire_consts or []
+        ws = wire_sizes or [0] * 8
+        shards.append(("wire", "wire", 0, head + [
+            "From Verif Require Import P2P.Inbound P2P.WireHS P2P.Limits.",
+            "Definition wmcases : list (N * list N * bytes) := [%s]." % ";\n".join(wire_marshal),
+            "Definition MWM := Eval vm_compute in mismatches_from hs_marshal_case_ok wmcases 0.", "Print MWM.",
+            "Definition wrcases : list (bytes * N * N * list N * bytes) := [%s]." % ";\n".join(wire_read),
+            "Definition MWR := Eval vm_compute in mismatches_from hs_read_case_ok wrcases 0.", "Print MWR.",
+            "Definition wwcases : list (bytes * bytes * N * bytes) := [%s]." % ";\n".join(wire_wire),
+            "Definition MWW := Eval vm_compute in mismatches_from wire_case_ok wwcases 0.", "Print MWW.",
+            "Definition wocases : list (bytes * bytes * N * bytes) := [%s]." % ";\n".join(wire_out),
+            "Definition MWO := Eval vm_compute in mismatches_from wire_out_case_ok wocases 0.", "Print MWO.",
+            "Definition wpcases : list ((N * N) * bytes) := [%s]." % ";\n".join(wire_resp),
+            "Definition MWP := Eval vm_compute in mismatches_from (fun c : (N * N) * bytes => bytes_eqb (marshal_hs_resp (mk_hs_resp (fst (fst c)) (snd (fst c)))) (snd c)) wpcases 0.", "Print MWP.",
+            "Definition wqcases : list (bytes * option ((N * N) * bytes)) := [%s]." % ";\n".join(wire_rresp),
+            "Definition wq_ok (c : bytes * option ((N * N) * bytes)) : bool := match read_hs_resp (fst c), snd c with",
+            "  | None, None => true | Some (r, rest), Some ((m, k), rest') => (hp_magic r =? m) && (hp_code r =? k) && bytes_eqb rest rest' | _, _ => false end.",
+            "Definition MWQ := Eval vm_compute in mismatches_from wq_ok wqcases 0.", "Print MWQ.",
+            "Definition MWC := Eval vm_compute in mismatches_from (fun c : list N * list N => list_N_eqb (fst c) (snd c))",
+            "  [([magic_main; hs_error; hs_code_wrong_req; hs_code_no_version; hs_max_version_cnt; hs_word; hs_word; hs_word], %s);" % NL(wc),
+            "   ([max_block_size block_size_hard_limit; max_payload_length; block_size_hard_limit; default_max_hdr_size], %s)] 0." % NL([ws[0], ws[5], ws[6], ws[7]]), "Print MWC.",
+            "Definition MWE := Eval vm_compute in mismatches_from (fun c : N * N => (fst c + envelope <=? max_payload_length) && (snd c <=? fst c + envelope)) [(%d, %d)] 0." % (ws[1], max(ws[3], ws[4])), "Print MWE."]))
     if recv_items or sm_items:
         shards.append(("recv", "recv", 0, head + [
             "From Verif Require Import P2P.BlockRecv.",
@@ -1089,6 +1508,29 @@ def run(ctx):
                 corr.append(("model evaluation unparsable (%s)" % name, out[-1000:]))
             elif res["MI"]:
                 corr.append(("inbound handshake over a byte stream and P2P/Inbound.v differ", [dict(case=fcases[i][0], obs=fcases[i][1]) for i in res["MI"][:5]]))
+        elif kind == "raw":
+            if "MRW" not in res:
+                corr.append(("model evaluation unparsable (%s)" % name, out[-1000:]))
+            elif res["MRW"]:
+                corr.append(("status check on a decoded status and P2P/StatusRaw.v differ", [raw_src[off + i] for i in res["MRW"][:5]]))
+        elif kind == "wire":
+            for key in ("MWM", "MWR", "MWW", "MWO", "MWP", "MWQ", "MWC", "MWE"):
+                if key not in res:
+                    corr.append(("model evaluation unparsable (%s %s)" % (name, key), out[-1000:]))
+            if res.get("MWM"):
+                corr.append(("HSHeadReq.Marshal and marshal_hs_req differ", {"indices": res["MWM"][:5]}))
+            if res.get("MWR"):
+                corr.append(("readWireHSRequest and read_hs_req (P2P/WireHS.v) differ", [wire_src[i] for i in res["MWR"][:5]]))
+            if res.get("MWW"):
+                corr.append(("handleInboundPeer and handle_inbound_wire (P2P/WireHS.v) differ", [wire_wsrc[i] for i in res["MWW"][:5]]))
+            if res.get("MWO"):
+                corr.append(("handleOutboundPeer and handle_outbound_wire (P2P/WireHS.v) differ", [wire_osrc[i] for i in res["MWO"][:5]]))
+            if res.get("MWP") or res.get("MWQ"):
+                corr.append(("HSHeadResp.Marshal / readWireHSResp and the model differ", {"marshal": res.get("MWP"), "read": res.get("MWQ")}))
+            if res.get("MWC"):
+                corr.append(("wire handshake / size limit constants differ from the model", {"consts": wire_consts, "sizes": wire_sizes}))
+            if res.get("MWE"):
+                corr.append(("the measured protobuf envelope of a maximal block exceeds the allowance of P2P/Limits.v", {"sizes": wire_sizes}))
         elif kind == "recv":
             if "MRV" not in res or "MSM" not in res:
                 corr.append(("model evaluation unparsable (%s)" % name, out[-1000:]))
@@ -1127,7 +1569,7 @@ def run(ctx):
     ctx.cov["timing_s"] = tm
     # ================================================================= evidence
     evals = len(W) + len(R) + len(ST) + len(HS) + len(BC) + len(chain_obs) + len(neg_cases)
-    evals += len(recv_items) + len(sm_items)
+    evals += len(recv_items) + len(sm_items) + len(wire_marshal) + len(wire_resp) + len(wire_rresp) + len(wire_read) + len(wire_wire) + len(wire_out)
     ctx.cov["evaluations"] = evals
     ctx.cov["traces_validated_against_impl"] = evals
     nontriv = set()
@@ -1141,6 +1583,8 @@ def run(ctx):
         nontriv.add(("blk", c["hash_field"][:4], c["alter_hdr"], c["wire"], o["block_hash"] == o["digest"]))
     for x in recv_src:
         nontriv.add(("recv", x["case"].get("_tag", "corpus"), len(x["case"]["hashes"]), tuple((so["status"], (so["tells"] or [{"err": -1}])[0]["err"]) for so in x["obs"]["steps"])))
+    for x in wire_src + wire_wsrc + wire_osrc:
+        nontriv.add(("wire", x["case"]["op"], x["case"].get("_kind"), x["obs"]["cls"], x["obs"]["chosen"], min(len(x["case"]["stream"]) // 2, 24)))
     for x in sm_src:
         nontriv.add(("sm", x["case"].get("_tag", "corpus"), tuple(so["code"] for so in x["obs"]["ops"][:12])))
     ctx.cov["distinct_nontrivial"] = len(nontriv)
